@@ -34,8 +34,8 @@ enum Op {
 
 const PRESETS: &[Option<u64>] = &[None, Some(300), Some(256 * 40 - 3), Some((1 << 32) - 5), Some((1 << 56) - 3), Some(1 << 63), Some(u64::MAX - 5000)];
 
-/// Differential case on the replay window itself (re-exported by the hook): the window must accept a sequence
-/// exactly when it was not accepted before and is less than 256 behind the highest accepted one.
+/// Model-based case on the replay window itself (re-exported by the hook): the window must reject a sequence accepted
+/// before and accept a fresh one that is less than 256 behind the highest accepted one.
 fn replay_window_case(ctx: &mut Ctx) -> Outcome {
     use renetcode::verif::ReplayProtection;
     let mut rp = ReplayProtection::new();
@@ -61,13 +61,20 @@ fn replay_window_case(ctx: &mut Ctx) -> Outcome {
         .max(base)
         // 2^64-1 is the window's 'empty' marker and cannot be followed by another sequence: not a usable sequence number
         .min(u64::MAX - 1);
-        let expected_reject = accepted.contains(&seq) || max.map(|mx| mx >= seq && mx - seq >= 256).unwrap_or(false);
+        // the statement fixes two of the three classes: accepted before -> rejected; fresh and less than 256 behind -> accepted.
+        // A fresh sequence 256 or more behind may go either way (the window cannot remember it); whatever the structure decides
+        // is recorded, so a later replay of it is judged like any other
+        let replay = accepted.contains(&seq);
+        let far_behind = max.map(|mx| mx >= seq && mx - seq >= 256).unwrap_or(false);
         let got_reject = rp.already_received(seq);
-        if got_reject != expected_reject {
+        if (replay && !got_reject) || (!replay && !far_behind && got_reject) {
             return Err(Fail::new(
                 if got_reject { "window_rejects_fresh" } else { "window_accepts_replay" },
-                format!("replay window: sequence {seq} (highest accepted {max:?}, accepted before: {}) -> already_received = {got_reject}, expected {expected_reject}", accepted.contains(&seq)),
+                format!("replay window: sequence {seq} (highest accepted {max:?}, accepted before: {replay}) -> already_received = {got_reject}"),
             ));
+        }
+        if far_behind && !replay {
+            ctx.label(if got_reject { "far_behind_rejected" } else { "far_behind_accepted" });
         }
         if !got_reject {
             rp.advance_sequence(seq);
@@ -92,7 +99,7 @@ impl Property for C04 {
         "exploration"
     }
     fn rule(&self) -> String {
-        "A case = 1-3 sessions connected to one secure server (fresh token each), per session and direction a pool of 300-1500 genuine datagrams - payloads produced by generate_payload_packet and, in some cases, the endpoint's own keep-alives interleaved with them (same counter, same replay window) - with the send counter preset to natural, 300, 256k-3, 2^32-5, 2^56-3, 2^63 or 2^64-5001; then a history of presentations whose sequence is chosen relative to the highest accepted one (next, max+k, max, max-1, max-255, max-256, max-257, max-256k, random) and whose form is genuine first-time, replay, bit-flipped / truncated / extended / prefix-modified copy, re-addressed to another session's endpoint or source address, presented in the other direction, or re-sealed with the session's own key under another protocol id or with another session's key. Model per session and direction = set of accepted sequences and their maximum (initialised with the replay-protected handshake packets). Oracles: a payload surfaces only from an unmodified genuine datagram of that session and direction, equals the bytes given to generate_payload_packet, carries that session's client id, and no datagram surfaces twice; an unmodified genuine datagram presented for the first time while less than 256 behind the highest accepted sequence must surface, also after rejected forgeries carrying the same sequence. A fifth of the cases instead drive the replay window structure itself (hook re-export) with 50-1500 sequence numbers chosen around the highest accepted one at magnitudes up to 2^64-2001 and compare already_received with the reference rule (reject iff accepted before or >= 256 behind). Non-trivial: a replay of an accepted datagram, presentations exactly 255 and 256 behind, and a forged copy presented before its genuine original. Distinct = hash of the decoded operation trace.".into()
+        "A case = 1-3 sessions connected to one secure server (fresh token each), per session and direction a pool of 300-1500 genuine datagrams - payloads produced by generate_payload_packet and, in some cases, the endpoint's own keep-alives interleaved with them (same counter, same replay window) - with the send counter preset to natural, 300, 256k-3, 2^32-5, 2^56-3, 2^63 or 2^64-5001; then a history of presentations whose sequence is chosen relative to the highest accepted one (next, max+k, max, max-1, max-255, max-256, max-257, max-256k, random) and whose form is genuine first-time, replay, bit-flipped / truncated / extended / prefix-modified copy, re-addressed to another session's endpoint or source address, presented in the other direction, or re-sealed with the session's own key under another protocol id or with another session's key. Model per session and direction = set of accepted sequences and their maximum (initialised with the replay-protected handshake packets). Oracles: a payload surfaces only from an unmodified genuine datagram of that session and direction, equals the bytes given to generate_payload_packet, carries that session's client id, and no datagram surfaces twice; an unmodified genuine datagram presented for the first time while less than 256 behind the highest accepted sequence must surface, also after rejected forgeries carrying the same sequence. A fifth of the cases instead drive the replay window structure itself (hook re-export) with 50-1500 sequence numbers chosen around the highest accepted one at magnitudes up to 2^64-2001 and compare already_received with the reference rule (reject what was accepted before, accept what is fresh and less than 256 behind; a fresh sequence further behind may go either way and is remembered if accepted). Non-trivial: a replay of an accepted datagram, presentations exactly 255 and 256 behind, and a forged copy presented before its genuine original. Distinct = hash of the decoded operation trace.".into()
     }
     fn assumptions(&self) -> Vec<String> {
         vec![
@@ -148,7 +155,7 @@ impl Property for C04 {
                         accepted.insert(d.seq);
                     }
                 }
-                let mut dids = vec![];
+                let mut dids: Vec<usize> = vec![];
                 let mut base = 0;
                 // in some cases the endpoint's own keep-alives (emitted after 300 ms without sending) are interleaved with the payloads:
                 // they share the send counter and the peer's replay window with them
@@ -166,8 +173,11 @@ impl Property for C04 {
                             nw.client_update(i, Duration::from_millis(300))
                         };
                         if let Some(did) = ka {
-                            if nw.pool[did].kind != 4 || nw.pool[did].seq != base + k as u64 {
-                                return Err(Fail::new("sequence_not_consecutive", format!("keep-alive after payload packet {k}: kind {} sequence {} (first {base})", nw.pool[did].kind, nw.pool[did].seq)));
+                            if nw.pool[did].kind != 4 {
+                                return Err(Fail::new("stage", format!("update after 300 ms of silence produced a datagram of kind {} instead of a keep-alive", nw.pool[did].kind)).sig("harness_io"));
+                            }
+                            if dids.last().map(|&l| nw.pool[l].seq >= nw.pool[did].seq).unwrap_or(false) {
+                                return Err(Fail::new("sequence_not_increasing", format!("keep-alive after packet {k} carries sequence {}, the packet before it {}", nw.pool[did].seq, nw.pool[*dids.last().unwrap()].seq)));
                             }
                             dids.push(did);
                             ctx.label("keepalive_interleaved");
@@ -182,10 +192,11 @@ impl Property for C04 {
                     let mut p = vec![0u8; len];
                     fill_stream(((i as u64) << 40) ^ ((to_client as u64) << 32) ^ k as u64, &mut p);
                     let did = if to_client { nw.server_payload(0, id, &p) } else { nw.client_payload(i, &p) }.map_err(|e| Fail::new("generate_refused", e))?;
+                    // the send counter must grow (the sequence is the nonce and the replay window's key); it need not be consecutive
                     if k == 0 {
                         base = nw.pool[did].seq;
-                    } else if nw.pool[did].seq != base + k as u64 {
-                        return Err(Fail::new("sequence_not_consecutive", format!("payload packet {k} carries sequence {} (first {base})", nw.pool[did].seq)));
+                    } else if nw.pool[*dids.last().unwrap()].seq >= nw.pool[did].seq {
+                        return Err(Fail::new("sequence_not_increasing", format!("payload packet {k} carries sequence {}, the packet before it {}", nw.pool[did].seq, nw.pool[*dids.last().unwrap()].seq)));
                     }
                     dids.push(did);
                 }
@@ -207,7 +218,8 @@ impl Property for C04 {
             let li = to_client as usize;
             let n = lanes[s][li].dids.len();
             // choose the sequence relative to the highest accepted one
-            let max_idx: Option<usize> = lanes[s][li].max.and_then(|m| m.checked_sub(lanes[s][li].base)).map(|x| x as usize).filter(|&x| x < n);
+            // pool index of the highest accepted sequence (or of the last pool entry below it)
+            let max_idx: Option<usize> = lanes[s][li].max.filter(|m| *m >= lanes[s][li].base).map(|m| lanes[s][li].dids.partition_point(|&d| nw.pool[d].seq <= m)).filter(|&x| x > 0).map(|x| x - 1);
             let cls = ctx.src.weighted(&[10, 5, 3, 3, 4, 4, 3, 3, 4]);
             let idx = match (cls, max_idx) {
                 (0, _) | (_, None) => {
